@@ -137,8 +137,10 @@ def _detect_alleles(variants, var_progress, first, bam_read):
         elif cigar_op == 5 or cigar_op == 6:  # H or P (hard clipping or padding)
             continue
 
-        # Queue all variants that start within the ref span of the cigar operation
-        ref_end = ref_pos + length
+        # Queue all variants that start within the ref span of the cigar operation.
+        # An insertion consumes no reference bases: only variants at the insertion point
+        # itself can be affected by it, not those up to `length` bases further right
+        ref_end = ref_pos + 1 if cigar_op == 1 else ref_pos + length
         while j < n:
             var_id = var_progress[j].variant_id
             var_pos = variants[var_id].position
